@@ -41,7 +41,7 @@ use rust_decimal::Decimal;
 use vh::{engine_util::*, *};
 
 fn instrument_name(i: usize) -> InstrumentNameInternal {
-    InstrumentNameInternal::new(format!("{}_b{}_usdt", i % 2, i))
+    InstrumentNameInternal::new(format!("b{}_usdt_x{}", i, i % 2))
 }
 
 fn n_assets(n: usize) -> usize {
